@@ -170,7 +170,8 @@ fn boundary_tokens() -> Vec<String> {
             }
             for p in &prefixes {
                 for (s1, s2) in [("", ""), ("-", ""), ("+", ""), ("", "-"), ("", "+"), ("-", "-"), ("+", "-"), ("--", "")] {
-                    for zeros in ["", "000"] {
+                    // (leading zeros: none, a few, and more than any integer type has bits or digits)
+                    for zeros in ["", "000", "000000000000000000000000000000000", "0000000000000000000000000000000000000000000000000000000000000000000"] {
                         out.push(format!("{s1}{p}{s2}{zeros}{d}"));
                     }
                 }
@@ -231,6 +232,7 @@ const PIECES: &[&str] = &[
     "step foo", "p 0x", "goto -1", "print r1 r2", "eval", "echo", "stepp", "hel p", "con", "mov r1 1",
     // blank / padded / non-ASCII
     "", " ", "   ", "\t", "\u{00A0}", "  help  ", "\thelp\t", "\u{2003}quit\u{3000}", "help\r",
+    "echo a\rb", "print\rr1", "echo x\r", "\rhelp", "move r1 5\r",
     "echo é😀 ß", "print é", "eval \u{00A0}add\u{00A0}", "p\u{00A0}r1", "help\tme", " move   r2    #-07 ",
 ];
 
